@@ -100,3 +100,32 @@ Proof.
   - inversion F as [|? ? F1 F2]; subst. inversion F2; subst.
     destruct c1 as [|[|[|c1]]]; try lia; destruct c2 as [|[|[|c2]]]; try lia; vm_compute; reflexivity.
 Qed.
+
+(* ---- SeqFuture::poll (util/seq_futures.rs, Model/SeqFut.v) ----
+   "all actions with an identical key are chained in one SeqFuture and polled sequentially": for the loop
+   body GENERATED from the current seq_futures.rs (translator T7), every non-empty list of sub-futures and
+   every number of Pending answers of each: the sub-futures are polled strictly in order, each until it is
+   Ready and never again (trace = sq_expected, no fault, no out-of-bounds index), the SeqFuture is Ready
+   exactly with the poll in which the last one becomes Ready, and not before. *)
+Require Import NX.Model.SeqFut NX.gen.SeqFutProg NX.Proofs.SeqFutProofs NX.Proofs.SeqFutGen.
+
+Theorem c07_seqfuture_source_is_proved_program : seqfut_gen = seqfut_fixed.
+Proof. exact seqfut_gen_is_proved. Qed.
+Print Assumptions c07_seqfuture_source_is_proved_program.
+
+Theorem c07_seqfuture_polls_in_order_each_to_completion :
+  forall k ks,
+    sq_polls (S (sum_list (k :: ks))) seqfut_gen (k :: ks) sq_init
+    = ({| qidx := length (k :: ks); qcur := 0; qtrace := sq_expected 0 (k :: ks); qbad := false; qoob := false |}, true)
+    /\ forall m, m <= sum_list (k :: ks) -> snd (sq_polls m seqfut_gen (k :: ks) sq_init) = false.
+Proof. exact seqfut_gen_spec. Qed.
+Print Assumptions c07_seqfuture_polls_in_order_each_to_completion.
+
+Example c07_seqfuture_nonvacuous :
+  fst (sq_polls 4 seqfut_fixed [1; 0; 2] sq_init)
+  = {| qidx := 3; qcur := 0; qtrace := [0; 0; 1; 2; 2; 2]; qbad := false; qoob := false |}.
+Proof. exact seqfut_nonvacuous. Qed.
+
+(* a body that advances twice skips sub-futures (an action silently dropped) *)
+Example c07_seqfuture_skip_refuted : sq_check seqfut_skip [1; 0; 2] = false.
+Proof. exact seqfut_skip_refuted. Qed.
